@@ -220,9 +220,41 @@ def collection_wclass(ty: Ty, v, text: str):
     if n >= 2:
         # shrunk: every single-element sub-collection passes, so the failure is about order / uniqueness of keys
         keys = tuple(k if ty.prim == 'set' else k[0] for k in v[1])
-        kinds = key_kinds(Ty('list', (kt,)), ('List', keys))
-        return f'collection:key-order:{skeleton(kt, 2)}' + (':' + '+'.join(kinds) if kinds else '')
+        culprits = []
+        for a, b in zip(keys, keys[1:]):
+            c = order_culprit(kt, a, b)
+            if c not in culprits:
+                culprits.append(c)
+        return 'collection:key-order:' + ','.join(culprits)
     return None
+
+
+def order_culprit(kt: Ty, a, b) -> str:
+    """Where two keys (a before b in Michelson order) first differ: the leaf type deciding their order, the base58
+    kinds met there, prefixed by `pair+` when the decision is taken inside a pair (lexicographic descent)."""
+    via_pair = False
+    t = kt
+    while True:
+        p = t.prim
+        if p == 'pair':
+            via_pair = True
+            if G.cmp_values(t.left(), a[1], b[1]) != 0:
+                t, a, b = t.left(), a[1], b[1]
+            else:
+                t, a, b = t.right(), a[2], b[2]
+        elif p == 'option':
+            if a[0] != b[0] or a[0] == 'None':
+                return ('pair+' if via_pair else '') + 'option-tag'
+            t, a, b = t.args[0], a[1], b[1]
+        elif p == 'or':
+            if a[0] != b[0]:
+                return ('pair+' if via_pair else '') + 'or-tag'
+            t, a, b = t.args[0 if a[0] == 'Left' else 1], a[1], b[1]
+        else:
+            kinds = []
+            if p in G.B58_LIKE:
+                kinds = sorted({G.b58_split(x.partition('%')[0])[0] + ('%' if '%' in x else '') for x in (a, b)})
+            return ('pair+' if via_pair else '') + p + (':' + '+'.join(kinds) if kinds else '')
 
 
 def c11_wclass(ty: Ty, v, f: Failure) -> str:
